@@ -37,6 +37,8 @@ type Prog struct {
 	swTag     map[ast.Expr]*ast.SwitchStmt
 	named     []*types.Named
 	conv      map[*types.TypeName][]*types.Interface
+
+	canonTok map[*Func]*rootTokens // canon.go
 }
 
 // Func is a declared function, a method or a function literal.
@@ -50,6 +52,7 @@ type Func struct {
 	Body   *ast.BlockStmt
 	Type   *ast.FuncType
 	Lits   []*Func // directly nested literals in source order
+	Prog   *Prog
 	graph  *Graph
 }
 
@@ -150,7 +153,7 @@ func (p *Prog) indexFile(pkg *packages.Package, file *ast.File) {
 		if obj == nil {
 			continue
 		}
-		f := &Func{Key: ShortFuncName(obj), Obj: obj, Decl: fd, Pkg: pkg, Body: fd.Body, Type: fd.Type}
+		f := &Func{Key: ShortFuncName(obj), Obj: obj, Decl: fd, Pkg: pkg, Body: fd.Body, Type: fd.Type, Prog: p}
 		if old, dup := p.Funcs[f.Key]; dup && old.Obj.Name() != "init" && old.Obj.Name() != "_" {
 			// should not happen outside init/_; keep first
 			_ = old
@@ -175,6 +178,30 @@ func (p *Prog) indexFile(pkg *packages.Package, file *ast.File) {
 	})
 }
 
+// localRole names a literal bound to a variable: package-level variables by their name, locals by the literal's
+// signature (a local's spelling must not enter a key, see canon.go).
+func localRole(pkg *packages.Package, id *ast.Ident, lit *ast.FuncLit) string {
+	var o types.Object = pkg.TypesInfo.Defs[id]
+	if o == nil {
+		o = pkg.TypesInfo.Uses[id]
+	}
+	if v, ok := o.(*types.Var); ok && !v.IsField() && v.Parent() != pkg.Types.Scope() {
+		if sig, ok := pkg.TypesInfo.TypeOf(lit).(*types.Signature); ok {
+			// parameter and result types only: their names are locals too
+			part := func(t *types.Tuple) string {
+				var l []string
+				for i := 0; i < t.Len(); i++ {
+					l = append(l, strings.ReplaceAll(types.TypeString(t.At(i).Type(), qual), " ", ""))
+				}
+				return strings.Join(l, ",")
+			}
+			return "fn:(" + part(sig.Params()) + ")(" + part(sig.Results()) + ")"
+		}
+		return "fn"
+	}
+	return id.Name
+}
+
 func (p *Prog) indexLits(pkg *packages.Package, parent *Func, root ast.Node) {
 	var walk func(n ast.Node, parent *Func)
 	walk = func(n ast.Node, parent *Func) {
@@ -187,14 +214,14 @@ func (p *Prog) indexLits(pkg *packages.Package, parent *Func, root ast.Node) {
 				for i, r := range x.Rhs {
 					if l, ok := unparen(r).(*ast.FuncLit); ok && i < len(x.Lhs) {
 						if id, ok := x.Lhs[i].(*ast.Ident); ok {
-							roles[l] = id.Name
+							roles[l] = localRole(pkg, id, l)
 						}
 					}
 				}
 			case *ast.ValueSpec:
 				for i, r := range x.Values {
 					if l, ok := unparen(r).(*ast.FuncLit); ok && i < len(x.Names) {
-						roles[l] = x.Names[i].Name
+						roles[l] = localRole(pkg, x.Names[i], l)
 					}
 				}
 			case *ast.KeyValueExpr:
@@ -221,6 +248,9 @@ func (p *Prog) indexLits(pkg *packages.Package, parent *Func, root ast.Node) {
 				switch f := unparen(x.Fun).(type) {
 				case *ast.Ident:
 					name = f.Name
+					if v, isV := pkg.TypesInfo.Uses[f].(*types.Var); isV && v.Parent() != pkg.Types.Scope() {
+						name = "arg" // a local function value: its spelling must not enter the key
+					}
 				case *ast.SelectorExpr:
 					name = f.Sel.Name
 				}
@@ -253,7 +283,7 @@ func (p *Prog) indexLits(pkg *packages.Package, parent *Func, root ast.Node) {
 			} else {
 				key = fmt.Sprintf("%s.init$lit@%d", ShortPkg(pkg.PkgPath), p.Fset.Position(lit.Pos()).Line)
 			}
-			f := &Func{Key: key, Lit: lit, Parent: parent, Pkg: pkg, Body: lit.Body, Type: lit.Type}
+			f := &Func{Key: key, Lit: lit, Parent: parent, Pkg: pkg, Body: lit.Body, Type: lit.Type, Prog: p}
 			if parent != nil {
 				parent.Lits = append(parent.Lits, f)
 			}
